@@ -698,6 +698,16 @@ impl<'tcx> Cx<'tcx> {
             v.push(("pub", J::Bool(vis.is_public())));
             let sig = tcx.fn_sig(did).instantiate_identity().skip_norm_wip();
             v.push(("sig", s(with_resolve_crate_name!(with_no_trimmed_paths!(with_no_visible_paths!(format!("{}", sig)))))));
+            // own generic parameters in declaration order (lifetimes excluded): lets a rule bind the generic
+            // arguments recorded at a call site (`gargs`) to the names used inside the body (`tyconst`)
+            let gens = tcx.generics_of(did);
+            let mut gn: Vec<J> = Vec::new();
+            for gp in gens.own_params.iter() {
+                if !matches!(gp.kind, rustc_middle::ty::GenericParamDefKind::Lifetime) {
+                    gn.push(s(gp.name.to_string()));
+                }
+            }
+            v.push(("generics", J::Arr(gn)));
             if let Some(ai) = tcx.opt_associated_item(did) {
                 let cont = ai.container_id(tcx);
                 v.push(("container", s(path_of(tcx, cont))));
